@@ -52,7 +52,7 @@ written by helper agents from my specs: alias lemma + OutputFix, small passes + 
 
 Modelled, not verified
   real operator semantics (uninterpreted); onnx schema table for optional outputs (handed to the model from onnx.defs);
-  numpy conversion of value_int(s)/float(s)/string(s) Constants (table handed to the model); traversal orders of
+  the tensor denoted by value_int(s)/float(s)/string(s) Constants (computed by the harness per the operator spec, handed to the model); traversal orders of
   model.graphs()/subgraphs() (read from the public API); the exact topological order (C12).
   Deliberate model choices (equal to the code on wfb/outputs_localb models, checked by the correspondence): DCE tests
   "is a graph output" globally instead of "is an output of this graph"; dedup drops the duplicate from every
@@ -129,6 +129,13 @@ Round 3 (b85ca57, a512dca committed: both inline findings flipped to fixed, witn
     the live-region route).
   * Proofs12: pass := ... | PRmFunc | PInline; C05_sequence covers all thirteen modelled passes; Property.v has 26 closed
     theorems.  ck.level = "proof".
+Round 3 seeded changes: r3m3 (DCE trailing-input trimming) detected with input.  r3m1 (scalar value_int/value_float lifted with
+  shape [1]) was missed because the table of tensors denoted by non-`value` Constants came from the pass's own conversion:
+  now const_attr_payload computes dtype/SHAPE/bytes per the operator spec independently of the pass, and targeted template
+  (d) has rank-observing consumers (Gather with a scalar index, Shape).  r3m2 (LiftSubgraphInitializers re-checks the suffixed
+  name only once) needs a double clash: template (e) = sibling subgraphs owning same-named initializers while w_1 / w_2 are
+  taken in the main graph by a fed input / initializer / node output.  (A subgraph initializer shadowing a main-graph name is
+  outside the quantifier: the reference evaluator lets the outer value win.)
 Wall time: quick ~60-110 s under load (40 specs x (22 single passes + 5 sequences) + corpus), thorough ~9-12 min (400 specs).
 """
 
@@ -1257,18 +1264,21 @@ def targeted_cases(rng, n: int):
         #     taken in the main graph by a USER input / an initializer / a node output (all inputs fed with non-default values)
         wn = rng.choice(["w", "val", "t"])
         taken = rng.choice([[wn + "_1"], [wn + "_1", wn + "_2"], [wn + "_2"]])
-        main_has_w = rng.random() < 0.4
         br = lambda nm, op, data: {"name": nm, "inputs": [], "inits": [[wn, "F2", data, False]],  # noqa: E731
                                    "nodes": [N(op, ["base", wn], [nm + "_o"])], "outputs": [[nm + "_o", "F2"]]}
-        en = [N("Add", ["x0", taken[0]], ["base"])]
-        if len(taken) > 1:
-            en = [N("Add", ["x0", taken[0]], ["b0"]), N("Sub", ["b0", taken[1]], ["base"])]
-        if main_has_w:
-            en.append(N("Mul", ["base", wn], ["bm"]))
+        e_in, e_init, en = [["c0", "B"], ["x0", "F2"]], [], []
+        for t in taken:
+            how = rng.choice(["input", "input", "init", "node"])
+            if how == "input":
+                e_in.append([t, "F2"])
+            elif how == "init":
+                e_init.append([t, "F2", [7.0, -7.0], False])
+            else:
+                en.append(N("Neg", ["x0"], [t]))
+        en.append(N("Add", ["x0", taken[0]], ["b0"]))
+        en.append(N("Sub", ["b0", taken[-1]], ["base"]))
         en.append(N("If", ["c0"], ["y"], then_branch=["g", br("th", "Add", [1.0, 1.0])], else_branch=["g", br("el", "Mul", [5.0, 5.0])]))
-        eouts = [["y", "F2"]] + ([["bm", "F2"]] if main_has_w else [])
-        cases.append(({"opset": 18, "inputs": [["c0", "B"], ["x0", "F2"]] + [[t, "F2"] for t in taken],
-                       "inits": [[wn, "F2", [7.0, -7.0], False]] if main_has_w else [], "functions": [], "nodes": en, "outputs": eouts},
+        cases.append(({"opset": 18, "inputs": e_in, "inits": e_init, "functions": [], "nodes": en, "outputs": [["y", "F2"], ["base", "F2"]]},
                       rng.choice([["liftsub"], ["liftsub", "dedup"], ["liftsub", "rminit"], ["liftsub", "liftsub"], ["dce", "liftsub"]]),
                       rng.randrange(1 << 30)))
     return cases
@@ -1378,8 +1388,9 @@ def run(ck) -> None:
              "harness/props/c05.py + _c05_gen.py (generator, IR->term converter incl. attribute sorting and identity maps, "
              "schema table from onnx.defs, traversal orders read from the public API, oracle)",
              "onnx.checker / onnx.reference.ReferenceEvaluator / onnxruntime as judges of 'accepted' and 'computes'",
-             "modelled not verified: real operator semantics (uninterpreted `interp` with the listed hypotheses), numpy "
-             "conversion of value_int(s)/float(s)/string(s) Constants (table handed to the model), exact sort order (C12), "
+             "modelled not verified: real operator semantics (uninterpreted `interp` with the listed hypotheses), the tensor "
+             "denoted by value_int(s)/float(s)/string(s) Constants (dtype, shape, bytes computed by the harness per the operator "
+             "spec — const_attr_payload — and handed to the model as a table), exact sort order (C12), "
              "names/metadata/shapes (outside the term language: frame-checked)")
     ck.assumptions += ["operator semantics are functions of (op id, attributes with type, body denotations, inputs, #outputs), monotone in body denotations",
                        "Identity is the identity; trailing omitted optional inputs are ignored",
